@@ -171,6 +171,17 @@ Theorem model_tree0_follows_mstep :
   fold_left mstep ops (tr (nth 0 (trees w) t0), nx (nth 0 (trees w) t0)).
 Proof. exact tree0_mstep. Qed.
 
+(* AvlIterator.Next, branches 2 and 3, transliterated on the pointer-level model
+   (descend Right then Left; else climb through the STORED Parent pointers while
+   the node is its parent's Right child): for every Insert/Delete history and
+   every node id it yields exactly the structural successor [succ_of] that the
+   world model Model.iter_next uses (same node id, same value, same "end") *)
+Theorem pointer_successor_walk_is_structural_successor :
+  forall ops k,
+  let s := fold_left pstep ops (PE, O) in
+  psucc (fst s) k = succ_of k (erase (fst s)) None.
+Proof. exact pointer_next_lemma. Qed.
+
 (* ---- non-vacuity ----------------------------------------------------------- *)
 (* a history with single and double rotations on insert and delete, deletions
    of the cursor element and of other elements under live iterators, a clone
@@ -226,4 +237,13 @@ Example ex_stored_parents :
   parents (fst (fold_left pstep
      [MIns 5; MIns 3; MIns 4; MIns 8; MIns 9; MIns 7; MIns 1; MIns 2; MIns 6; MDel 5; MDel 7; MDel 1; MDel 3] (PE, O)))
   = [(1%nat, None); (3%nat, Some 1%nat); (2%nat, Some 1%nat); (8%nat, Some 2%nat); (4%nat, Some 2%nat)].
+Proof. vm_compute. reflexivity. Qed.
+
+(* the pointer walk after a two-child delete of the root (node 0 is gone, node 4
+   took its place): climbs, a descent, the end of the iteration, a stale id *)
+Example ex_pointer_walk :
+  let T := fst (fold_left pstep [MIns 4; MIns 2; MIns 6; MIns 1; MIns 3; MIns 5; MIns 7; MDel 4] (PE, O)) in
+  map (psucc T) [0; 1; 2; 3; 4; 5; 6; 9]%nat =
+  [None; Some (Some (4%nat, 3)); Some (Some (6%nat, 7)); Some (Some (1%nat, 2));
+   Some (Some (5%nat, 5)); Some (Some (2%nat, 6)); Some None; None].
 Proof. vm_compute. reflexivity. Qed.
